@@ -126,8 +126,52 @@ def shard(tier, seed, shard, nshards):
             continue
         cls, spec, mode, ext, rnd = it
         run_one(st, cls, spec, mode, ext, rnd, tier)
+    # partition-style twins: the SAME Einsum, tensor names, rank names and loop order compiled
+    # back to back in this process, once with a static (shape) and once with a dynamic
+    # (occupancy) split of the same rank - same level names, different graphs.  Anything the
+    # FlowGraph remembers per (Einsum, loop order) would carry over from one to the other.
+    for k in range(6 if tier == "quick" else 60):
+        rnd = random.Random("%s-twins-%d-%d-%d" % (ID, seed, shard, k))
+        for sp in style_twins(rnd):
+            run_one(st, "style-twin", sp, "plain", None, rnd, tier)
     st.counters["hook_calls"] = dict(hooks.CALLS)
     return st.result()
+
+
+def style_twins(rnd):
+    from ..gen import einsum as GE
+    for _ in range(40):
+        b, info = GE.gen_plain(rnd, products_only=True, allow_take=False, allow_scalar=False,
+                               allow_rank0=False, max_ranks=3)
+        e = b.exprs[0]
+        if len(e.terms) != 1:
+            continue
+        holders = {}
+        for a in e.inputs():
+            for r in b.decl[a.name]:
+                holders.setdefault(r, []).append(a.name)
+        cands = [r for r in info["ranks"] if holders.get(r)]
+        if not cands:
+            continue
+        r = rnd.choice(cands)
+        rest = [x for x in info["ranks"] if x != r]
+        rnd.shuffle(rest)
+        lo = list(rest)
+        i1 = rnd.randint(0, len(lo))
+        lo.insert(i1, r + "1")
+        lo.insert(rnd.randint(i1 + 1, len(lo)), r + "0")
+        sz = rnd.randint(2, 4)
+        twins = []
+        for d in ("uniform_shape(%d)" % sz, "uniform_occupancy(%s.%d)" % (rnd.choice(holders[r]), sz)):
+            s = b.clone()
+            s.partitioning = {e.out.name: {r: [d]}}
+            s.loop_order = {e.out.name: list(lo)}
+            s.tags = list(s.tags) + ["style-twin", "partitioned"]
+            twins.append(s)
+        if rnd.random() < 0.5:
+            twins.reverse()
+        return twins
+    return []
 
 
 def replay(v):
@@ -172,7 +216,7 @@ def finalize(results, counters, tier, seed):
     # with ~47 specs per family; requiring them here made seed 2 inconclusive)
     miss = [t for t in ("occ-with-follower", "flatten-occupancy", "double-flatten",
                         "metrics", "st-coord",
-                        "partitioned", "cascade2", "both-dims-partitioned", "reread-input",
+                        "partitioned", "cascade2", "both-dims-partitioned", "reread-input", "style-twin",
                         "flatten-lookup")
             if counters.get("strata_compiled", {}).get(t, 0) == 0]
     if miss:
